@@ -259,6 +259,7 @@ func c06(x *mon.Ctx) {
 	// default times (Options.Now nil): an artefact that expires in real time must be refused by every later call,
 	// also through an options value that was used before (shared with C12's history clause; ~6 s of wall clock)
 	staleDefaultTime(x)
+	stageEventsDefaultRoot(x)
 	x.Require("twin", 3, 0, 3)
 	for _, role := range c06Roles {
 		x.Require("expiry-boundary/"+role, 3, 4, 7)
